@@ -431,7 +431,9 @@ class LocalEngine(BaseEngine):
     def reset(self, backend_options=None):
         backend_options = backend_options or {}
         super().reset(backend_options)
-        self.backend.reset(**self.backend_options)
+        # a backend that has not simulated anything yet has nothing to reset
+        if getattr(self.backend, "circuit", None) is not None:
+            self.backend.reset(**self.backend_options)
         # TODO should backend.reset and backend.begin_circuit be combined?
 
     def _init_backend(self, init_num_subsystems):
